@@ -89,16 +89,30 @@ def run_driver(binary, test, sched, out, env_extra=None, nruns=None, per_run_tim
         errbuf = []
         last = [time.time()]
 
+        blocks = []      # race-detector reports: (index of the run being executed, text)
+
         def rd():
             nonlocal done
+            cur = None
             for line in p.stderr:
                 if line.startswith('run-done '):
                     done = int(line.split()[1]) + 1
                     last[0] = time.time()
-                else:
-                    errbuf.append(line)
-                    if len(errbuf) > 4000:
-                        del errbuf[:2000]
+                    continue
+                if cur is not None:
+                    cur.append(line)
+                    if line.startswith('=================='):
+                        blocks.append((min(done, nruns - 1), ''.join(cur)))
+                        cur = None
+                    continue
+                if line.startswith('WARNING: DATA RACE'):
+                    cur = [line]
+                    continue
+                errbuf.append(line)
+                if len(errbuf) > 4000:
+                    del errbuf[:2000]
+            if cur:
+                blocks.append((min(done, nruns - 1), ''.join(cur)))
         th = threading.Thread(target=rd, daemon=True)
         th.start()
         hung = False
@@ -110,17 +124,23 @@ def run_driver(binary, test, sched, out, env_extra=None, nruns=None, per_run_tim
                 break
         p.wait()
         th.join(timeout=5)
-        if done >= nruns and p.returncode == 0:
-            break
+        # every report of the race detector becomes a synthetic one-event run (Cfg, Race, RunEnd) judged by the observer;
+        # its class names the known close/send pattern or is "data race"
+        if blocks:
+            with open(out, 'a') as f:
+                f.write('\n')
+                for ix, txt in blocks:
+                    cls = classify_race(txt)
+                    info['races'].append({'index': ix, 'run': ids[ix], 'kind': 'Race', 'class': cls, 'text': txt[-4000:]})
+                    base = dict(n=999999, t=0, g=0, svc='', ch=0, seq=-1, st=-1, pid=ids[ix], hex='', a=0, b=0)
+                    f.write(json.dumps(dict(base, k='Cfg', s='udp,bubble')) + '\n')
+                    f.write(json.dumps(dict(base, k='Race', g=-1, ch=-1, a=-1, b=-1, s=cls)) + '\n')
+                    f.write(json.dumps(dict(base, k='RunEnd', n=1, g=-1, ch=-1, pid=-1, a=ids[ix], b=-1, s='')) + '\n')
         if done >= nruns:
-            # all runs finished but the binary reported something (e.g. race detector exit code)
-            txt = ''.join(errbuf)
-            if 'DATA RACE' in txt:
-                info['races'].append({'run': None, 'text': txt[-3000:]})
             break
         # the run with index `done` killed or hung the process
         txt = ''.join(errbuf)
-        kind = 'Hang' if hung else ('Race' if 'DATA RACE' in txt else 'Crash')
+        kind = 'Hang' if hung else 'Crash'
         if hung and mode == 'bubble':
             # synctest cannot advance virtual time while a goroutine waits on a sync.Mutex that is
             # held across a timer wait: a limitation of the bubble, not an observation of the client.
@@ -131,7 +151,7 @@ def run_driver(binary, test, sched, out, env_extra=None, nruns=None, per_run_tim
             # make sure the cut-off line is terminated, then close the run
             f.write('\n')
             ev = dict(k=kind, n=999999, t=0, g=-1, svc='', ch=-1, seq=-1, st=-1, pid=ids[done], hex='', a=-1, b=-1,
-                      s=(txt.strip().splitlines() or [''])[0][:200] if kind != 'Race' else 'data race')
+                      s=(txt.strip().splitlines() or [''])[0][:200])
             f.write(json.dumps(ev) + '\n')
             f.write(json.dumps(dict(k='RunEnd', n=1, t=0, g=-1, svc='', ch=-1, seq=-1, st=-1, pid=-1, hex='', a=ids[done], b=-1, s='')) + '\n')
         frm = done + 1
@@ -139,6 +159,24 @@ def run_driver(binary, test, sched, out, env_extra=None, nruns=None, per_run_tim
     if mode == 'real':
         annotate_stalls(out)
     return info
+
+
+RACE_SEND_SITES = ('handleConnStateRes.func1', 'handleTunnelRes.func1', 'pushInbound.func1')
+RACE_CLOSE_SITES = ('(*Tunnel).process.deferwrap', '(*Tunnel).serve.deferwrap', '(*Router).serve.deferwrap', '(*Tunnel).process(', '(*Tunnel).serve(', '(*Router).serve(')
+
+
+def classify_race(txt):
+    """'chan-close-send' for the pattern of known finding C10-F1 - a helper goroutine's send on the heartbeat / ack / inbound
+    channel racing with the close of that channel by the serve goroutine (both stacks are channel operations of exactly those
+    sites) - and 'data race' for every other report."""
+    halves = txt.split('Previous ')
+    if len(halves) == 2 and 'Goroutine ' in halves[1]:
+        a, b = halves[0], halves[1].split('Goroutine ')[0]
+        for snd, cls in ((a, b), (b, a)):
+            if 'runtime.chansend' in snd and 'runtime.closechan' in cls and any(x in snd for x in RACE_SEND_SITES) \
+                    and any(x in cls for x in RACE_CLOSE_SITES):
+                return 'chan-close-send'
+    return 'data race'
 
 
 def annotate_stalls(path):
